@@ -18,6 +18,24 @@ Theorem frames_fit : forall mtu o seq tok inface mark wire,
 Proof. exact frames_fit_lemma. Qed.
 Print Assumptions frames_fit.
 
+(* The same over every history of a link service's send side.  The per-fragment reservation is a cached field
+   (l.headerOverhead) recomputed by MakeNDNLPLinkService and by SetOptions (management faces/update) AFTER the new options
+   are stored.  For every initial option set and every sequence of SetOptions / sequence-counter values / sends (each send
+   with its own MTU): every frame of every send fits that send's MTU.  Invariant: cached reservation = reservation of the
+   options in force (ls_inv). *)
+Theorem frames_fit_histories : forall o0 evs, Forall ev_ok evs ->
+  Forall send_ok (snd (ls_run (make_ls o0) evs [])).
+Proof. exact frames_fit_histories_lemma. Qed.
+Print Assumptions frames_fit_histories.
+
+(* Why the order in SetOptions matters: a reservation computed from the OLD options (fragmentation off) with the NEW
+   options in force (fragmentation on) overflows the MTU. *)
+Theorem stale_reservation_overflows_mtu :
+  let stale := mkLs (mkSo true false) (compute_header_overhead (mkSo false false)) 0 in
+  existsb (fun f => (1500 <? zlen f)%Z) (fst (ls_send 1500 stale [0;0;1;2;3;4] None None (repeat 7 4000))) = true.
+Proof. exact stale_reservation_overflows. Qed.
+Print Assumptions stale_reservation_overflows_mtu.
+
 (* A packet that fits - i.e. whose LpPacket (token, mark, incoming-face id, Fragment, no fragmentation fields) is no
    larger than the MTU - is sent as exactly one frame: that LpPacket.  The sequence counter is not consumed. *)
 Theorem fits_one_frame : forall mtu o seq tok inface mark wire,
